@@ -61,15 +61,16 @@ TEXT = {
                       "The rest of the container is built on BTreeMap/BinaryHeap, outside what Verus or Kani can execute here.",
                 ref="DESIGN.md §4 C06", note="Trusted: the driver's oracle (reference Huffman cost, pushed sequences) and rustc's debug/release builds. Bounds as stated; nothing beyond them is decided.",
                 technique="bounded-exhaustive native driver (stand-in; contract-based proof not applicable to BTreeMap-based code here)"),
-    "C07": dict(level="Bounded (labelled as such): native bounded-exhaustive driver — 8x3 training sets over 1-2 source regions x 268 probe strings (all one-byte strings, dictionary entries, prefixes/extensions, "
+    "C07": dict(level="Bounded (labelled as such): native bounded-exhaustive driver — 10x3 training sets (incl. few distinct strings pushed once each) over 1-2 source regions x 268 probe strings (all one-byte strings, dictionary entries, prefixes/extensions, "
                       "strings whose first byte is an assigned tag, empty) x second merge generation x clear; >1024 distinct strings across the summary's compaction; every push is refused or read back exactly and heavy hitters cost one byte. "
                       "Deductive part (Verus, unbounded): BytesMap::{get,len} and DictionaryCodec::decode (result is the tag's dictionary entry or the stored bytes).",
                 ref="DESIGN.md §4 C07", note="Trusted: the driver's oracle and rustc's debug/release builds. Bounds as stated.",
                 technique="bounded-exhaustive native driver (stand-in; contract-based proof not applicable to BTreeMap-based code here)"),
-    "C09": dict(level="Bounded (labelled as such): twin harnesses over 12 region compositions and FlatStack (clone / clone_from into destinations pre-filled with 0..3 unrelated items, identical further push, then divergence), "
-                      "plus two mechanical program-text obligations: every hand-written clone/clone_from mentions every field, and src/ contains no shared-state primitive (so independence follows from ownership).",
-                ref="DESIGN.md §4 C09", note="Trusted: harness oracles; Clone of std types. Clone on type parameters has no usable Verus spec, so no deductive part.",
-                technique="bounded twin harnesses (native exhaustive enumeration) + program-text scans"),
+    "C09": dict(level="Bounded (labelled as such): twin harnesses over 17 region compositions and FlatStack (clone / clone_from into destinations pre-filled with 0..3 unrelated items, identical further push, then divergence), "
+                      "plus two mechanical program-text obligations: every hand-written clone/clone_from mentions every field, and src/ contains no shared-state primitive (so independence follows from ownership). "
+                      "Deductive part (Verus, unbounded, relative): the 18 hand-written clone / clone_from bodies of nine wrappers return / leave a value equal to the source, assuming the same law for their type parameters and Vec.",
+                ref="DESIGN.md §4 C09", note="Trusted: harness oracles; Clone of std types; the CloneLaw contract assumed for type parameters and Vec (std's Clone has no usable Verus spec). If a clone body leaves the dialect the proved part for it is dropped with a NOTE and the bounded tier alone decides.",
+                technique="bounded twin harnesses (native exhaustive enumeration) + program-text scans + a small contract-based part (Verus) on the hand-written clone bodies"),
     "C14": dict(level="Bounded (labelled as such): IntoOwned laws (into_owned == pushed, borrow_as round trip, clone_onto onto 5 prior targets, reborrow, region-to-region push) on read items of slice, columns, option, result, "
                       "nested slice regions and Huffman Wrapped items, region-backed and owned-borrowed. "
                       "Deductive part (Verus, unbounded, generic in the parts): IntoOwned for Option<T> and Result<T,E> — into_owned, clone_onto (whatever the target held before, incl. the other variant), borrow_as.",
